@@ -216,11 +216,41 @@ fn position_sets(kmax: usize) -> Vec<Vec<(u16, u16)>> {
     out
 }
 
+/// Shared-string tables around the 8- and 16-bit index boundaries: LABELSST carries a 32-bit index.
+fn large_sst(rep: &Report) {
+    let sizes = [255usize, 256, 257, 65_535, 65_536, 65_537, 66_000];
+    sizes.par_iter().for_each(|n| {
+        crate::engine::crumb::set_job(&format!("C02 shared-string table of {n} strings"));
+        let strings: Vec<String> = (0..*n).map(|i| format!("s{i}")).collect();
+        let idx: Vec<u32> = [0u32, 1, 254, 255, 256, 257, 65_534, 65_535, 65_536, 65_537, *n as u32 - 1].into_iter().filter(|i| (*i as usize) < *n).collect();
+        let cells: Vec<BCell> = idx.iter().enumerate().map(|(k, i)| BCell::LabelSst { r: k as u16, c: 0, xf: 0, isst: *i }).collect();
+        let book = BBook { sheets: vec![BSheet::new("S1", cells)], sst_records: crate::gen::biff8::sst_records_whole(&strings, idx.len() as u32), ..Default::default() };
+        let bytes = cfb::simple(&[("Workbook", workbook_stream(&book))], &cfb::Layout::default());
+        rep.eval(1);
+        let replay = || Replay { json: json!({"large_sst": n, "indices": idx}), files: vec![("xls".into(), bytes.clone())] };
+        let res = guarded(|| -> Result<calamine::Range<Data>, String> {
+            let mut wb: Xls<_> = Xls::new(Cursor::new(bytes.clone())).map_err(|e| format!("open: {e:?}"))?;
+            wb.worksheet_range("S1").map_err(|e| format!("worksheet_range: {e:?}"))
+        });
+        match &res {
+            Err(p) => rep.fail("large-sst/panic", &format!("reader panicked: {p}"), replay),
+            Ok(Err(e)) => rep.fail("large-sst/error", &format!("well-formed workbook rejected: {e}"), replay),
+            Ok(Ok(r)) => for (k, i) in idx.iter().enumerate() {
+                let got = r.get_value((k as u32, 0)).cloned().unwrap_or(Data::Empty);
+                if got != Data::String(format!("s{i}")) { rep.fail("large-sst/index", &format!("table of {n} strings: LABELSST isst {i} at ({k},0) read {got:?}"), replay); break; }
+            },
+        }
+        rep.case(hash_of(&bytes), true, hash_of(&format!("{:?}", res.as_ref().map(|r| r.as_ref().map(|x| x.get_size()).map_err(|e| e.clone())).map_err(|e| e.clone()))));
+        crate::engine::crumb::clear();
+    });
+}
+
 pub fn check(rep: &Report) {
     let t = crate::thorough(&rep.tier);
     rep.rule("(a) all 2^32 RK words through the real rk decoder vs MS-XLS 2.5.217; (b) sheets with <= k cells in a 2x3 window at anchors {(0,0),(1,100),(65534,253)} over ~75 cell kinds = 15 numbers x every exact encoding (NUMBER, RK int/float, both x100 forms), LABELSST, LABEL 8/16-bit, BOOLERR (2 bools, 8 error codes), FORMULA with numeric/string/bool/error/empty-string result; adjacent RK cells optionally grouped into MULRK; ignorable records interleaved; v3/v4 container; all choice vectors with <= d deviations; non-trivial = non-default choice; distinct by file bytes");
     rep.assume("RK int with the /100 flag may read as Int (exact multiple) or Float: the statement only requires numeric equality there");
     rk_sweep(rep);
+    large_sst(rep);
     let anchors: [(u16, u16); 3] = [(0, 0), (1, 100), (65534, 253)];
     let kmax = if t { 3 } else { 2 };
     let dev = if t { 3 } else { 2 };
@@ -248,6 +278,12 @@ pub fn check(rep: &Report) {
 pub fn replay(path: &str) -> i32 {
     let Ok(s) = std::fs::read_to_string(path) else { return 2 };
     let v: serde_json::Value = serde_json::from_str(&s).unwrap();
+    if v.get("large_sst").is_some() {
+        let bytes = std::fs::read(v["files"][0].as_str().unwrap()).unwrap_or_default();
+        let r = guarded(|| { let mut wb: Xls<_> = Xls::new(Cursor::new(bytes.clone())).unwrap(); let r = wb.worksheet_range("S1").unwrap(); (0..12u32).map(|k| format!("{:?}", r.get_value((k, 0)))).collect::<Vec<_>>() });
+        println!("table of {} strings, cells reference {}: read {r:?}", v["large_sst"], v["indices"]);
+        return 0;
+    }
     if let Some(w) = v.get("rk_word").and_then(|w| w.as_u64()) {
         println!("rk word {w:#010x}: decoded {:?}, reference {:?}", calamine::verif::xls::rk_num(w as u32), rk_reference(w as u32));
         return 0;
